@@ -31,6 +31,8 @@ var cDeepRegs = simrt.RegisterCounter("op_long_history_of_registrations_over_the
 // during build, read by the operator tasks).
 var wideRegs bool
 
+var cHugeSize = simrt.RegisterCounter("fault_registration_with_a_size_no_frame_can_carry")
+
 var cSpareCap = simrt.RegisterCounter("probe_proprietary_payload_with_spare_capacity_encoded")
 var cOwnerWrite = simrt.RegisterCounter("fault_caller_modifies_decoded_commands_it_was_handed")
 
@@ -71,7 +73,7 @@ var (
 
 // ---- model registry shared by the tasks (harness bookkeeping: norace) ----
 
-var modelSize [2][256]int16 // -1 = not registered
+var modelSize [2][256]int32 // -1 = not registered
 
 func dirIdx(up bool) int {
 	if up {
@@ -84,7 +86,7 @@ func dirIdx(up bool) int {
 func modelGet(up bool, cid byte) int { return int(modelSize[dirIdx(up)][cid]) }
 
 //go:norace
-func modelSet(up bool, cid byte, n int) { modelSize[dirIdx(up)][cid] = int16(n) }
+func modelSet(up bool, cid byte, n int) { modelSize[dirIdx(up)][cid] = int32(n) }
 
 //go:norace
 func modelReset() {
@@ -222,6 +224,12 @@ func operator(h *history, me, nOper, n int, sub uint64) {
 		size := 1 + r.Intn(8)
 		if r.Intn(4) == 0 {
 			size = 9 + r.Intn(6) // up to the FOpts budget
+		}
+		if r.Intn(16) == 0 {
+			// a size no frame can carry: whether the registry takes or refuses
+			// it, its answer and its state must agree
+			size = []int{242, 243, 255, 256, 1000, 65536}[r.Intn(6)]
+			simrt.Count(cHugeSize)
 		}
 		cur := modelGet(up, cid)
 		if cid >= 0x80 && cur < 0 && r.Intn(8) == 0 {
